@@ -399,6 +399,23 @@ var (
 	reIntSyn = reConcat(reOpt(reSign), reDigits)
 )
 
+// numError builds a real *strconv.NumError{Func, Num, Err} whose Err is the
+// package's ErrSyntax or ErrRange value (so errors.Is works on it).
+func (m *machine) numError(fn string, num value, rangeErr bool) iface {
+	p := m.w.prog.ImportedPackage("strconv")
+	name := "ErrSyntax"
+	if rangeErr {
+		name = "ErrRange"
+	}
+	g, ok := p.Members[name].(*ssa.Global)
+	if !ok {
+		return m.stdError("strconv", "NumError", "strconv."+fn+": parsing: "+name)
+	}
+	sentinel := *m.globalAddr(g)
+	t, ptr := m.newStruct("strconv", "NumError", fn, num, sentinel)
+	return iface{t: t, v: ptr}
+}
+
 func (m *machine) stdError(pkg, typ, msg string) iface {
 	// an error value of a standard-library type the engine does not look into
 	p := m.w.prog.ImportedPackage(pkg)
@@ -513,7 +530,8 @@ func iAtoi(m *machine, fr *frame, args []value) value {
 	if sc {
 		v, err := strconv.Atoi(s.S)
 		if err != nil {
-			return tuple{int64(v), m.stdError("strconv", "NumError", err.Error())}
+			ne, _ := err.(*strconv.NumError)
+			return tuple{int64(v), m.numError("Atoi", s.S, ne != nil && ne.Err == strconv.ErrRange)}
 		}
 		return tuple{int64(v), iface{}}
 	}
@@ -537,17 +555,15 @@ func (m *machine) atoi(s *Term) value {
 		}
 		return tuple{fromTerm(mkNeg(x)), iface{}}
 	}
-	errV := func() iface {
-		return m.stdError("strconv", "NumError", "strconv.Atoi: parsing <symbolic>: invalid syntax or out of range")
-	}
 	if !m.branch(mkInRe(s, reIntSyn)) {
-		return tuple{int64(0), errV()}
+		return tuple{int64(0), m.numError("Atoi", fromTerm(s), false)}
 	}
+	errV := func() iface { return m.numError("Atoi", fromTerm(s), true) }
 	var val *Term
 	if m.branch(mkPrefixOf(mkStr("-"), s)) {
 		d, _ := m.cutPrefix(s, mkStr("-"))
 		if !m.inInt64Range(d, true) {
-			return tuple{int64(0), errV()}
+			return tuple{int64(-1 << 63), errV()}
 		}
 		val = mkNeg(mkStrToInt(d))
 	} else {
@@ -556,7 +572,7 @@ func (m *machine) atoi(s *Term) value {
 			d, _ = m.cutPrefix(s, mkStr("+"))
 		}
 		if !m.inInt64Range(d, false) {
-			return tuple{int64(0), errV()}
+			return tuple{int64(1<<63 - 1), errV()}
 		}
 		val = mkStrToInt(d)
 	}
@@ -606,31 +622,71 @@ func pfSelfTest(n int) (int, string) {
 	return count, rec(nil, n)
 }
 
+// 32-bit ParseFloat on the family "DeNN" (one digit, 'e', one or two digits,
+// optional sign): exactly which members overflow float32.
+var (
+	pf32Family = newDual(`[+-]?[0-9]e[0-9]{1,2}`)
+	pf32InRng  = newDual(`[+-]?(?:[0-9]e(?:[0-2]?[0-9]|3[0-7])|[0-3]e38|0e[0-9]{1,2})`)
+	pf32Safe   = newDual(`[+-]?(?:[0-9]{1,20}(?:\.[0-9]{0,20})?|\.[0-9]{1,20})(?:[eE][+-]?(?:[0-9]|1[0-7]))?|` + pfSpecial)
+)
+
+func pf32SelfTest() string {
+	for _, sign := range []string{"", "+", "-"} {
+		for d := 0; d <= 9; d++ {
+			for e := 0; e <= 99; e++ {
+				for _, ef := range []string{"%d", "%02d"} {
+					s := fmt.Sprintf("%s%de"+ef, sign, d, e)
+					_, err := strconv.ParseFloat(s, 32)
+					if (err == nil) != pf32InRng.re.MatchString(s) {
+						return fmt.Sprintf("%q: ParseFloat(32) err=%v, model in-range=%v", s, err, pf32InRng.re.MatchString(s))
+					}
+				}
+			}
+		}
+	}
+	return ""
+}
+
 func iParseFloat(m *machine, fr *frame, args []value) value {
 	s, sc := strArg(args[0])
 	bits := asInt64(args[1])
 	if sc {
 		v, err := strconv.ParseFloat(s.S, int(bits))
 		if err != nil {
-			return tuple{v, m.stdError("strconv", "NumError", err.Error())}
+			ne, _ := err.(*strconv.NumError)
+			return tuple{v, m.numError("ParseFloat", s.S, ne != nil && ne.Err == strconv.ErrRange)}
 		}
 		return tuple{v, iface{}}
 	}
-	if bits != 64 {
-		panic(cut{"ParseFloat with bit size other than 64"})
-	}
-	if r, ok := m.memo["pf:"+s.key]; ok {
+	mk := fmt.Sprintf("pf%d:%s", bits, s.key)
+	if r, ok := m.memo[mk]; ok {
 		return r
 	}
 	var r value
-	if m.branch(mkInRe(s, pfBounded.smt)) {
-		r = tuple{rawApp("pf_val", SF64, s), iface{}}
+	valFn := "pf_val"
+	bounded := pfBounded
+	if bits == 32 {
+		valFn, bounded = "pf32_val", pf32Safe
+		if m.branch(mkInRe(s, pf32Family.smt)) {
+			if m.branch(mkInRe(s, pf32InRng.smt)) {
+				r = tuple{rawApp(valFn, SF64, s), iface{}}
+			} else {
+				r = tuple{float64(0), m.numError("ParseFloat", fromTerm(s), true)}
+			}
+			m.memo[mk] = r
+			return r
+		}
+	} else if bits != 64 {
+		panic(cut{"ParseFloat with bit size other than 32 or 64"})
+	}
+	if m.branch(mkInRe(s, bounded.smt)) {
+		r = tuple{rawApp(valFn, SF64, s), iface{}}
 	} else if m.branch(mkAnd(mkInRe(s, pfPlain.smt), mkNot(mkInRe(s, pfValid.smt)))) {
-		r = tuple{float64(0), m.stdError("strconv", "NumError", "strconv.ParseFloat: parsing <symbolic>: invalid syntax")}
+		r = tuple{float64(0), m.numError("ParseFloat", fromTerm(s), false)}
 	} else {
 		panic(cut{"float text in hexadecimal/underscore form or with more than 20 digits / 2 exponent digits (outside bound)"})
 	}
-	m.memo["pf:"+s.key] = r
+	m.memo[mk] = r
 	return r
 }
 
